@@ -178,6 +178,98 @@ func rvBlockReaches(from, to *ssa.BasicBlock) bool {
 	return false
 }
 
+// rvReachesOnEdge: block `to` is reachable from block `from` entered through the edge pred -> from,
+// not counting paths that contradict themselves: a boolean phi takes the constant of the edge its
+// block was entered through, and a later branch on that phi (or its negation) follows only the
+// matching successor. This is the shape of a loop whose verdict travels through a variable
+// (`ok := true; for … { if bad { ok = false; break } }; if !ok { return }`, or a boolean helper whose
+// body was merged into the caller): the early exit and the exhaustion edge meet in one block, and
+// only the test of the merged boolean separates them again.
+func rvReachesOnEdge(pred, from, to *ssa.BasicBlock) bool {
+	type state struct {
+		pred, b *ssa.BasicBlock
+		env     map[*ssa.Phi]bool
+	}
+	envKey := func(b *ssa.BasicBlock, env map[*ssa.Phi]bool) string {
+		var ks []string
+		for ph, v := range env {
+			ks = append(ks, ph.Name()+"="+map[bool]string{true: "1", false: "0"}[v])
+		}
+		sort.Strings(ks)
+		return itoa(b.Index) + "|" + strings.Join(ks, ",")
+	}
+	seen := map[string]bool{}
+	work := []state{{pred, from, map[*ssa.Phi]bool{}}}
+	for len(work) > 0 {
+		st := work[len(work)-1]
+		work = work[:len(work)-1]
+		env := map[*ssa.Phi]bool{}
+		for k, v := range st.env {
+			env[k] = v
+		}
+		// phis of the entered block take the value of the entering edge
+		if st.pred != nil {
+			pi := -1
+			for i, pr := range st.b.Preds {
+				if pr == st.pred {
+					pi = i
+				}
+			}
+			for _, in := range st.b.Instrs {
+				ph, isPhi := in.(*ssa.Phi)
+				if !isPhi {
+					break
+				}
+				delete(env, ph)
+				if pi >= 0 && pi < len(ph.Edges) {
+					e := ph.Edges[pi]
+					if cb, isC := constBool(e); isC {
+						env[ph] = cb
+					} else if src, isPh := e.(*ssa.Phi); isPh {
+						if v, known := st.env[src]; known {
+							env[ph] = v
+						}
+					}
+				}
+			}
+		}
+		k := envKey(st.b, env)
+		if seen[k] {
+			continue
+		}
+		seen[k] = true
+		if st.b == to {
+			return true
+		}
+		succs := st.b.Succs
+		if len(st.b.Instrs) > 0 {
+			if iff, isIf := st.b.Instrs[len(st.b.Instrs)-1].(*ssa.If); isIf && len(succs) == 2 {
+				cond, pol := iff.Cond, true
+				for {
+					if u, isU := cond.(*ssa.UnOp); isU && u.Op == token.NOT {
+						cond, pol = u.X, !pol
+						continue
+					}
+					break
+				}
+				if ph, isPhi := cond.(*ssa.Phi); isPhi {
+					if v, known := env[ph]; known {
+						if v == pol {
+							succs = succs[:1]
+						} else {
+							succs = succs[1:]
+						}
+					}
+				}
+			}
+		}
+		for _, nx := range succs {
+			work = append(work, state{st.b, nx, env})
+		}
+	}
+	return false
+}
+
 // ---------------------------------------------------------------------------------------------
 // Range loops
 
@@ -290,7 +382,7 @@ func (l *rvLoop) onlyByExhaustion(site ssa.Instruction) (bool, string) {
 			if l.L.Body[s] || (b == l.L.Head && s == l.Exit) {
 				continue
 			}
-			if rvBlockReaches(s, sb) {
+			if rvReachesOnEdge(b, s, sb) {
 				return false, "site is reachable through an early exit of the loop (block " + itoa(b.Index) + ")"
 			}
 		}
@@ -338,11 +430,11 @@ func (l *rvLoop) everyIterationGuard(site ssa.Instruction, classify func(cond ss
 		if badOnTrue {
 			bad = b.Succs[0]
 		}
-		if rvBlockReaches(bad, l.L.Head) {
+		if rvReachesOnEdge(b, bad, l.L.Head) {
 			why = "the failing outcome of the per-element test continues the loop"
 			continue
 		}
-		if rvBlockReaches(bad, site.Block()) {
+		if rvReachesOnEdge(b, bad, site.Block()) {
 			why = "the failing outcome of the per-element test still reaches the site"
 			continue
 		}
